@@ -52,7 +52,8 @@ RULE = (
     "every tuple of length <=3/4 over 11 index atoms (None, Ellipsis, in/out-of-range ints, slices) on 3/5 shapes, "
     "non-trivial when non-empty. collapse: all pairs/triples of 6 plain/nested shapes x allow. operator metadata: unary part "
     "of the class table, real->complex and explicit-input_dtype operands under every class, random trees (160/4000), random stacks of random expressions (40/1200), "
-    "non-trivial when the tree has an operation node, distinct by skeleton; stacks/freeze/Function configurations."
+    "non-trivial when the tree has an operation node, distinct by skeleton; fixed stacks/freeze/Function configurations; "
+    "model-backed streams: freeze / Function.slice / join (every index in [-N-1, N]), DiagonalReplicated (axes in and out of range)."
 )
 ASSUMPTIONS = [
     "CPython's slice.indices / range and NumPy basic indexing are the reference semantics of slicing (contract)",
